@@ -67,12 +67,13 @@ _cov_re = re.compile(r"^<(\w+) line \d+, col \d+ to line \d+, col \d+ of module 
 def run(wd: Path, module: str, cfg: str, *, workers: int = 1, timeout: int = 600,
         simulate: str | None = None, depth: int | None = None, seed: int | None = None,
         coverage: bool = False, env: dict | None = None, deadlock: bool = False,
-        heap: str = "4g", dfid: int | None = None) -> TLCResult:
+        heap: str = "4g", dfid: int | None = None, gc_threads: int | None = None) -> TLCResult:
     (wd / f"{module}.cfg").write_text(cfg)
     meta = wd / f"meta_{module}"
     if meta.exists():
         shutil.rmtree(meta)
-    cmd = ["java", f"-Xmx{heap}", "-XX:+UseParallelGC", "-cp", JAR, "tlc2.TLC",
+    gc = ["-XX:+UseSerialGC"] if gc_threads == 1 else ["-XX:+UseParallelGC"] + ([f"-XX:ParallelGCThreads={gc_threads}"] if gc_threads else [])
+    cmd = ["java", f"-Xmx{heap}", *gc, "-cp", JAR, "tlc2.TLC",
            "-workers", str(workers), "-metadir", str(meta), "-noGenerateSpecTE"]
     if not deadlock:
         cmd += ["-deadlock"]
